@@ -10,7 +10,7 @@ ids=$(python3 -c "import sys;sys.path.insert(0,'/verif');from checks_table impor
 for d in "$@"; do
   name=$(basename $d)
   rev=""
-  patch=$d/patch.diff
+  patch=$(realpath $d/patch.diff)
   [ -f $d/reverse ] && rev="-R"
   git -C $wt checkout -q -- . && git -C $wt apply $rev $patch || { echo "$name	PATCH-FAILS" >> "$out"; continue; }
   caught=""
